@@ -200,6 +200,9 @@ def trkOp (r : TrkRun) (op : String) : TrkRun :=
   | ["p", m] =>
     let (st, evs, t) := popTrack r.st (parseInt m)
     emit st ("p[" ++ showEvs evs ++ "]" ++ (match t with | some t => showTrack t | none => "N"))
+  | ["g", m] => emit r.st ("g" ++ (match getTrack r.st (parseInt m) with | some t => showTrack t | none => "N"))
+  | ["r", _] => r
+  | ["a", _] => r
   | ["n", k] => emit r.st ("n[" ++ " ".intercalate ((nLatest r.st (parseInt k)).map fun t => toString t.mmsi) ++ "]")
   | ["u", line, ts] =>
     match decodeArgs nk env false [bytesOfHex line] with
